@@ -10,32 +10,43 @@
 (* environment at most once per second; the replay renders on fresh threads, *)
 (* and a few histories on one thread with that second waited out.)           *)
 (***************************************************************************)
-EXTENDS Integers, Sequences
+(* The process is environment state, too: after a fork the child is another  *)
+(* process and {P} / {pid} there render the child's id - whatever the parent *)
+(* rendered, built or cached before.                                         *)
+EXTENDS Integers, Sequences, FiniteSets
 
-CONSTANTS Zones,       \* names of zones, e.g. "UTC0", "JST-9"
-          Kinds,       \* "plain" ({d}), "default" ({d(fmt)}), "local" ({d(fmt)(local)}), "utc" ({d(fmt)(utc)})
+CONSTANTS MaxForks,
+          Zones,       \* names of zones, e.g. "UTC0", "JST-9"
+          Kinds,       \* "plain" ({d}), "default" ({d(fmt)}), "local" ({d(fmt)(local)}), "utc" ({d(fmt)(utc)}), "pid" ({P}|{pid})
           MaxOps
 VARIABLES zone,        \* the environment's local zone
           built,       \* kinds for which an encoder exists (built under the zone of that moment)
+          gen,         \* how many forks lie between the original process and the one that executes the history now
           hist
-vars == <<zone, built, hist>>
+vars == <<zone, built, gen, hist>>
 
-Init == zone \in Zones /\ built = {} /\ hist = <<[op |-> "zone", z |-> zone]>>
-SetZone(z) == /\ z # zone /\ zone' = z /\ hist' = Append(hist, [op |-> "zone", z |-> z]) /\ UNCHANGED built
-Build(k) == /\ k \notin built /\ built' = built \cup {k} /\ hist' = Append(hist, [op |-> "build", k |-> k]) /\ UNCHANGED zone
+Init == zone \in Zones /\ built = {} /\ gen = 0 /\ hist = <<[op |-> "zone", z |-> zone]>>
+SetZone(z) == /\ z # zone /\ zone' = z /\ hist' = Append(hist, [op |-> "zone", z |-> z]) /\ UNCHANGED <<built, gen>>
+Build(k) == /\ k \notin built /\ built' = built \cup {k} /\ hist' = Append(hist, [op |-> "build", k |-> k]) /\ UNCHANGED <<zone, gen>>
 \* the zone a date of kind k is rendered in, now
 Rendered(k) == IF k = "utc" THEN "UTC0" ELSE zone
 Encode(k) == /\ k \in built
-             /\ hist' = Append(hist, [op |-> "encode", k |-> k, z |-> Rendered(k)])
-             /\ UNCHANGED <<zone, built>>
+             /\ hist' = Append(hist, [op |-> "encode", k |-> k, z |-> Rendered(k), gen |-> gen])
+             /\ UNCHANGED <<zone, built, gen>>
+\* fork(): the history continues in the child, with everything the parent had built
+Fork == /\ gen < MaxForks /\ gen' = gen + 1 /\ hist' = Append(hist, [op |-> "fork"]) /\ UNCHANGED <<zone, built>>
 Next == /\ Len(hist) <= MaxOps
         /\ \/ \E z \in Zones : SetZone(z)
            \/ \E k \in Kinds : Build(k) \/ Encode(k)
+           \/ Fork
 Spec == Init /\ [][Next]_vars
 
 \* a utc date is independent of the environment; a local date depends on nothing but the current zone
 UtcFixed == \A i \in 1..Len(hist) : (hist[i].op = "encode" /\ hist[i].k = "utc") => hist[i].z = "UTC0"
 RECURSIVE LastZone(_, _)
 LastZone(h, i) == IF h[i].op = "zone" THEN h[i].z ELSE LastZone(h, i - 1)
+\* a process id is rendered by the process that encodes: as many forks before the encode as the encode says
+ForksBefore(h, i) == Cardinality({j \in 1..i : h[j].op = "fork"})
+PidCurrent == \A i \in 1..Len(hist) : hist[i].op = "encode" => hist[i].gen = ForksBefore(hist, i)
 LocalCurrent == \A i \in 1..Len(hist) : (hist[i].op = "encode" /\ hist[i].k # "utc") => hist[i].z = LastZone(hist, i)
 =============================================================================
